@@ -566,6 +566,12 @@ def check_torsion(ctx, case, obs, d, P, base):
     if pl:
         if circ(got, spec) > tol and circ(got, -spec) > tol:
             ctx.fail('C15|torsion|value|planar', f'Atoms.torsion_angle gives {got} for a planar arrangement with torsion {spec}', pay)
+        # nearly planar is not planar: a triple product of 1e-8 A^3 is six orders above the rounding noise of the
+        # coordinates, there the sense of rotation (and so the sign of the result) is decided
+        tp = dot(sub(P[1], P[0]), cross(sub(P[2], P[1]), sub(P[3], P[2])))
+        if abs(tp) > 1e-8 and abs(got) not in (0.0, 180.0) and (got > 0) != (tp > 0):
+            ctx.fail('C15|torsion|sign|near-planar', f'Atoms.torsion_angle gives {got} for four atoms 1e-5 degrees off a planar arrangement '
+                     f'whose triple product b1.(b2xb3) is {tp} (torsion angle {spec})', pay)
     else:
         if core.close(got, spec, tol, 0):
             residual(ctx, 'max_residual_torsion_deg', got, spec)
